@@ -10,6 +10,9 @@ def rebuild(t, f):
         n = mk_field(rebuild(t[1], f), t[2])
     elif k == "vfield":
         n = mk_vfield(rebuild(t[1], f), t[2], t[3])
+    elif k == "trybranch":
+        from .prov import mk_trybranch
+        n = mk_trybranch(rebuild(t[1], f))
     elif k in ("clone", "take", "discr", "resok", "lockres"):
         n = (k, rebuild(t[1], f))
     elif k == "wrap":
@@ -22,7 +25,7 @@ def rebuild(t, f):
         n = (k, t[1], rebuild(t[2], f))
     elif k == "phi":
         n = mk_phi([rebuild(a, f) for a in t[1]])
-    elif k in ("maperr", "mapped"):
+    elif k in ("maperr", "mapped", "mapok"):
         n = (k, rebuild(t[1], f), rebuild(t[2], f))
     elif k == "over":
         n = ("over", rebuild(t[1], f), tuple((pn, rebuild(v, f)) for pn, v in t[2]))
@@ -69,16 +72,18 @@ class Interp:
                 cb = self.prog.callee_body(s)
                 if cb is None or cb.is_closure() or self.opaque(cb):
                     return n
-                rt = self.ret_term(cb)
+                # expand inside the callee first (its inner calls see the callee's own parameters),
+                # then bind the callee's parameters to the (expanded) arguments of this call
+                rt = self.expand(self.ret_term(cb), depth + 1)
                 bp = self.prog.bp(s.body)
-                args = [bp.arg_term(s.bb, i) for i in range(len(s.term["args"]))]
+                args = [self.expand(bp.arg_term(s.bb, i), depth + 1) for i in range(len(s.term["args"]))]
 
                 def sub(m):
                     if m[0] == "param" and 1 <= m[1] <= len(args):
                         return args[m[1] - 1]
                     return m
 
-                return self.expand(rebuild(rt, sub), depth + 1)
+                return rebuild(rt, sub)
             return n
 
         return rebuild(term, f)
